@@ -263,7 +263,7 @@ def main():
     for mode, big, n in plan:
         for s in range(0, n, per):
             jobs.append({"mode": mode, "big": big, "start": s, "count": min(per, n - s)})
-    vlib.fanout("checks.C03", jobs, c, timeout=900 if thorough else 240)
+    vlib.fanout("checks.C03", jobs, c, timeout=3000 if thorough else 600)
     total = sum(n for _, _, n in plan)
     c.floor("evaluations", total)
     c.floor("graphs_built", int(total * 0.5))
